@@ -566,6 +566,13 @@ def sub_chunk(args):
                                 bad = 'syntax tree depends on layout'
                         except SyntaxError:
                             bad = 'not an expression'
+                    if not bad:
+                        # C03: every continuation line is indented by a multiple of `indent`
+                        for line in text.split('\n')[1:]:
+                            lead = len(line) - len(line.lstrip(' '))
+                            if line.strip() and lead % st[0] != 0:
+                                bad = 'a line is indented by %d columns, not a multiple of indent=%d: %r' % (lead, st[0], line[:80])
+                                break
                 if bad:
                     fails.append({'kind': 'subclass-or-call-does-not-reconstruct', 'why': bad, 'value': repr(value)[:300],
                                   'settings': st, 'text': (text or '')[:600]})
@@ -1200,6 +1207,7 @@ def token_chunk(args):
             mism.append({'value': repr(value)[:300], 'value_sx': sx[:1500], 'model': g[:300], 'impl': 'ctoks request'})
             continue
         norms = set()
+        by_limits = {}
         for st, r in zip(sets, res[1:]):
             indent, width, ribbon, depth, msl, sort = st
             n += 1
@@ -1214,10 +1222,18 @@ def token_chunk(args):
             m_toks, m_canon = sx_tokens(r[0]), sx_tokens(r[1])
             a, b, c = teq_normal(py), teq_normal(m_toks), teq_normal(m_canon)
             norms.add(repr(py))
-            if a != b:
-                mism.append({'kind': 'ctoks(model stream) differs from CPython tokenize of the implementation text', 'value': repr(value)[:300],
-                             'value_sx': sx[:1500], 'settings': st, 'impl': repr(a)[:800], 'model': repr(b)[:800]})
+            # the property itself, on the implementation alone: the same value under the same depth / max_seq_len / sort setting has the
+            # same code tokens (up to literal splitting) at every width, ribbon and indent
+            prev = by_limits.setdefault((depth, msl, sort), (a, st, text))
+            if prev[0] != a and len(fails) < 3:
+                fails.append({'kind': 'tokens-depend-on-layout', 'value': repr(value)[:300], 'settings': st, 'other_settings': prev[1],
+                              'text': text[:500], 'other_text': prev[2][:500]})
                 break
+            if a != b:
+                if not any(m.get('value_sx') == sx[:1500] for m in mism[-1:]):
+                    mism.append({'kind': 'ctoks(model stream) differs from CPython tokenize of the implementation text', 'value': repr(value)[:300],
+                                 'value_sx': sx[:1500], 'settings': st, 'impl': repr(a)[:800], 'model': repr(b)[:800]})
+                continue        # keep looking at the other layouts of this value: the layout-invariance oracle needs them
             # the reader (Spec/Reader.lean) on the canonical tokens against CPython's parser on the implementation's text
             if depth is None and (msl is None or msl >= 1000) and len(r) > 2 and len(mism) < 3:
                 try:
